@@ -140,8 +140,9 @@ class TransactionManager:
 
     def error_transaction(self, exc):
         self._transition_to(TransactionState.ABORTABLE_ERROR)
-        self._txn_partitions.clear()
-        self._txn_consumer_group = None
+        # NOTE: partitions and the consumer group the coordinator has already
+        # added stay registered: abort_transaction() must still send EndTxn
+        # for them. They are reset by complete_transaction().
         self._pending_txn_partitions.clear()
         for _, _, fut in self._pending_txn_offsets:
             fut.set_exception(exc)
